@@ -82,6 +82,18 @@ fn mk_start(ids: &[ClockId], s: &Start) -> StartTime {
 fn mk_tween(ids: &[ClockId], t: &Tw) -> Tween {
 	Tween { start_time: mk_start(ids, &t.start), duration: Duration::from_nanos(t.dur_ns), easing: t.easing }
 }
+/// an immediate resume is sent the way a game sends it: `resume(tween)`; `resume_at` is kept for the other start times.
+/// On the audio side the two are one command (`resume` = `resume_at(StartTime::Immediate, ..)`), so the model case is
+/// the same `(SImm, tween)`; what differs is the handle-side code, which runs with the handle's view of the state:
+/// the state published by the LAST callback, not the one the commands issued since then will produce
+macro_rules! send_resume {
+	($h:expr, $ids:expr, $s:expr, $t:expr) => {
+		match $s {
+			Start::Imm => $h.resume(mk_tween($ids, $t)),
+			other => $h.resume_at(mk_start($ids, other), mk_tween($ids, $t)),
+		}
+	};
+}
 fn clock_ids() -> Vec<ClockId> {
 	let mut b = MockInfoBuilder::new();
 	vec![b.add_clock(false, 0, 0.0), b.add_clock(false, 0, 0.0)]
@@ -149,7 +161,7 @@ fn run_with(ids: &[ClockId], cbs: &[Cb], mk: impl FnOnce() -> (Box<dyn Sound>, S
 				handle.pause(mk_tween(ids, t));
 			}
 			if let Some((s, t)) = &cb.resume {
-				handle.resume_at(mk_start(ids, s), mk_tween(ids, t));
+				send_resume!(handle, ids, s, t);
 			}
 			if let Some(t) = &cb.stop {
 				handle.stop(mk_tween(ids, t));
@@ -294,6 +306,74 @@ fn gen_scenario(r: &mut Rng) -> Scenario {
 fn monitors(s: &mut Session, desc: &str, sc: &Scenario, tr: &Trace) {
 	monitors_on(s, desc, &sc.cbs, tr, true)
 }
+/// the life cycle as the property words it, per command: the command the sound read last (pause, resume, stop are read in
+/// this order at a callback boundary) puts it on one branch - pause: Pausing then Paused; resume: Resuming then Playing;
+/// resume_at: WaitingToResume, then Resuming, then Playing; stop: Stopping then Stopped; no command yet: Playing - and it
+/// moves along that branch only forwards until the next command (Stopped may cut any branch short: natural end, clock
+/// gone, decoder error).  `states[k]` = what the handle reports after callback k.  This holds whatever the handle
+/// reported while the commands were issued (it shows the previous callback's state, e.g. still Playing after `pause`)
+fn last_command_monitor(s: &mut Session, desc: &str, cbs: &[Cb], states: &[PlaybackState]) {
+	use PlaybackState::*;
+	let mut branch: (&str, Vec<PlaybackState>) = ("no command yet", vec![Playing, Stopped]);
+	let mut at: Option<usize> = None;
+	let mut rank = 0usize;
+	for (k, st) in states.iter().enumerate() {
+		let cb = &cbs[k];
+		let new = if cb.stop.is_some() {
+			Some(("stop", vec![Stopping, Stopped]))
+		} else if let Some((start, _)) = &cb.resume {
+			Some(match start {
+				Start::Imm => ("resume", vec![Resuming, Playing, Stopped]),
+				_ => ("resume_at", vec![WaitingToResume, Resuming, Playing, Stopped]),
+			})
+		} else if cb.pause.is_some() {
+			Some(("pause", vec![Pausing, Paused, Stopped]))
+		} else {
+			None
+		};
+		if k > 0 && states[k - 1] == Stopped {
+			// Stopped is final: commands are ignored (checked by the callers)
+			continue;
+		}
+		if let Some(b) = new {
+			branch = b;
+			at = Some(k);
+			rank = 0;
+		}
+		let issued = |at: Option<usize>| match at {
+			Some(a) => {
+				let mut names = vec![];
+				if cbs[a].pause.is_some() {
+					names.push("pause");
+				}
+				if let Some((st, _)) = &cbs[a].resume {
+					names.push(if matches!(st, Start::Imm) { "resume" } else { "resume_at" });
+				}
+				if cbs[a].stop.is_some() {
+					names.push("stop");
+				}
+				format!(
+					"{} issued before callback {a} with no callback between them, while the handle reported {:?}",
+					names.join(" then "),
+					if a == 0 { Playing } else { states[a - 1] }
+				)
+			}
+			None => "no command issued so far".to_string(),
+		};
+		match branch.1.iter().position(|x| x == st) {
+			None => {
+				s.fail(desc.to_string(), format!("callback {k}: the handle reports {st:?}; the last command read is {} ({}), whose life cycle is {:?}", branch.0, issued(at), branch.1), None);
+				return;
+			}
+			Some(p) if p < rank => {
+				s.fail(desc.to_string(), format!("callback {k}: the handle went back from {:?} to {st:?} without a new command ({}: {:?}; {})", branch.1[rank], branch.0, branch.1, issued(at)), None);
+				return;
+			}
+			Some(p) => rank = p,
+		}
+	}
+}
+
 /// `check_pos`: a streaming sound's reported position is the index of ring slot 1, which appears when the decoder
 /// delivers a late frame, whatever the playback state; the position clause is checked there against the model
 fn monitors_on(s: &mut Session, desc: &str, cbs: &[Cb], tr: &Trace, check_pos: bool) {
@@ -314,6 +394,7 @@ fn monitors_on(s: &mut Session, desc: &str, cbs: &[Cb], tr: &Trace, check_pos: b
 			was_stopped = true;
 		}
 	}
+	last_command_monitor(s, desc, cbs, &tr.per_cb.iter().map(|x| x.0).collect::<Vec<_>>());
 	let mut stopped_seen = false;
 	let mut prev: Option<&(PlaybackState, f64, bool, Vec<f32>)> = None;
 	for (k, cur) in tr.per_cb.iter().enumerate() {
@@ -717,7 +798,7 @@ fn run_stream(ids: &[ClockId], sc: &SScenario) -> STrace {
 				handle.pause(mk_tween(ids, t));
 			}
 			if let Some((s, t)) = &cb.resume {
-				handle.resume_at(mk_start(ids, s), mk_tween(ids, t));
+				send_resume!(handle, ids, s, t);
 			}
 			if let Some(t) = &cb.stop {
 				handle.stop(mk_tween(ids, t));
@@ -1036,6 +1117,139 @@ fn stream_law_scenarios(s: &mut Session, r: &mut Rng, ids: &[ClockId], count: u6
 }
 
 // ================================================================================================
+// commands issued back to back at ONE callback boundary: the handle still shows the state published by the previous
+// callback (Playing after `pause`, Paused after `resume`, ...) while the next command is issued
+// ================================================================================================
+/// scenarios with a known answer: a sound playing at unity gain; `pause(tp)` and then `resume(tr)` are issued with no
+/// callback between them (a pause menu opened and closed within one game frame).  The sound reads pause, resume in this
+/// order at the next callback: Resuming while tr runs, then Playing; the fade never left unity, so every output frame
+/// equals the uninterrupted playback and the position keeps advancing.  Control (`gap`): the same two commands one
+/// callback apart.  Static sounds and (fed) streaming sounds, as bare Sounds; sent to the model as well
+fn same_boundary_scenarios(s: &mut Session, r: &mut Rng, ids: &[ClockId], count: u64) {
+	for i in 0..count {
+		let streaming = i % 2 == 1;
+		let gap = r.chance(1, 4);
+		let chunk = *r.pick(&[1usize, 2, 4, 8]);
+		let lead = r.range(1, 3) as usize;
+		let kp = if r.chance(1, 4) { 0 } else { (r.below(16) + 1) * 2 };
+		let kr = if r.chance(1, 6) { 0 } else { (r.below(12) + 1) * 2 };
+		let (ep, er) = (gen_easing(r), gen_easing(r));
+		let need = ((kr as usize + chunk - 1) / chunk).max(1);
+		let resume_at_cb = if gap { lead + 1 } else { lead };
+		let ncb = resume_at_cb + need + 3;
+		let mut cbs: Vec<Cb> = (0..ncb).map(|_| Cb { pause: None, resume: None, stop: None, lens: vec![chunk], clocks: vec![] }).collect();
+		let control = cbs.clone();
+		cbs[lead].pause = Some(frames_tw(kp, ep));
+		cbs[resume_at_cb].resume = Some((Start::Imm, frames_tw(kr, er)));
+		let total = ncb * chunk;
+		let what = format!(
+			"{} DC sound playing at unity gain for {lead} callbacks of {chunk} frames; pause({ep:?} over {kp} frames) before callback {lead}, resume({er:?} over {kr} frames) {}",
+			if streaming { "streaming" } else { "static" },
+			if gap { "one callback later" } else { "right after it, no callback in between (the handle still reports Playing)" }
+		);
+		// (state, position, outputs) per callback for the run and for the uninterrupted control
+		let (tr, ctl, t) = if streaming {
+			// everything is delivered before the first callback; a second packet is never granted: no natural end
+			let mk = |cbs: &[Cb]| SScenario {
+				packets: vec![total + 8, 3],
+				fail_at: None,
+				st: Start::Imm,
+				fade_in: None,
+				cbs: cbs.iter().enumerate().map(|(j, cb)| SCb { permits: if j == 0 { 1 } else { 0 }, cb: cb.clone() }).collect(),
+			};
+			let sc = mk(&cbs);
+			let st = run_stream(ids, &sc);
+			let cst = run_stream(ids, &mk(&control));
+			let refs: Vec<&Cb> = cbs.iter().collect();
+			let t = stream_term(&sc.st, &sc.fade_in, &refs[..st.env.len().min(refs.len())], &st.env, &st.tr.tab);
+			let desc = format!("{what}: {t}");
+			if !st.timeout && !st.tr.panicked {
+				s.case("same_boundary_stream", t.clone(), &st.tr.obs, Some(key_of(&t)));
+			}
+			stream_monitors(s, &desc, &sc, &st);
+			if st.timeout || cst.timeout || st.tr.panicked || cst.tr.panicked {
+				if cst.timeout || cst.tr.panicked {
+					s.fail(desc, "the uninterrupted control run of the stream timed out or panicked".into(), None);
+				}
+				continue;
+			}
+			(st.tr, cst.tr, t)
+		} else {
+			let sc = Scenario { n: total + 8, start: 0, lp: false, st: Start::Imm, fade_in: None, cbs: cbs.clone() };
+			let tr = run_scenario(ids, &sc);
+			let ctl = run_scenario(ids, &Scenario { n: total + 8, start: 0, lp: false, st: Start::Imm, fade_in: None, cbs: control.clone() });
+			let t = term(&sc, &tr.tab);
+			let desc = format!("{what}: {t}");
+			s.case("same_boundary_static", t.clone(), &tr.obs, Some(key_of(&t)));
+			monitors(s, &desc, &sc, &tr);
+			if tr.panicked || ctl.panicked {
+				continue;
+			}
+			(tr, ctl, t)
+		};
+		s.count(if gap { "same_boundary_control_gap" } else { "same_boundary_pause_resume" });
+		let desc = format!("{what}: {t}");
+		// the control plays on undisturbed
+		if ctl.per_cb.iter().any(|x| x.0 != PlaybackState::Playing) || ctl.per_cb.iter().skip(1).any(|x| x.3.iter().any(|y| *y != 1.0)) {
+			s.fail(desc.clone(), format!("the uninterrupted control did not play DC at unity throughout: {:?}", ctl.per_cb.iter().map(|x| (x.0, x.3.clone())).collect::<Vec<_>>()), None);
+			continue;
+		}
+		let mut reached: Option<usize> = None;
+		for (j, (stt, pos, _, outs)) in tr.per_cb.iter().enumerate() {
+			if j < lead {
+				continue;
+			}
+			if gap && j == lead {
+				let want = if kp as usize <= chunk { PlaybackState::Paused } else { PlaybackState::Pausing };
+				if *stt != want {
+					s.fail(desc.clone(), format!("callback {j} (after pause, before resume): state {stt:?}, expected {want:?}"), None);
+					break;
+				}
+				continue;
+			}
+			// resume: Resuming then Playing, complete when the tween completes
+			let n = j - resume_at_cb + 1;
+			let want = if n >= need { PlaybackState::Playing } else { PlaybackState::Resuming };
+			if *stt != want {
+				s.fail(
+					desc.clone(),
+					format!("callback {n} after resume: the handle reports {stt:?}, expected {want:?} (resume: Resuming then Playing; its tween of {kr} frames completes in callback {need}); resume was the last command issued"),
+					None,
+				);
+				break;
+			}
+			if reached.is_none() && *stt == PlaybackState::Playing {
+				reached = Some(j);
+			}
+			// the gain: back at exactly unity from the callback after the one that reported Playing; with no callback
+			// between pause and resume the fade never left unity, so it is the control's output throughout
+			let must_equal = !gap || reached.map(|p| j > p).unwrap_or(false);
+			if must_equal && outs.iter().map(|x| x.to_bits()).ne(ctl.per_cb[j].3.iter().map(|x| x.to_bits())) {
+				s.fail(desc.clone(), format!("callback {j}: output {outs:?} differs from uninterrupted playback {:?}; the gain must be back at exactly unity", ctl.per_cb[j].3), None);
+				break;
+			}
+			if gap && j > resume_at_cb {
+				let last = *tr.per_cb[j - 1].3.last().unwrap();
+				if outs.iter().fold((last, true), |(l, ok), x| (*x, ok && *x >= l)).1 == false {
+					s.fail(desc.clone(), format!("callback {j}: the gain fell during the fade-in of resume: {outs:?} after {last:?}"), None);
+					break;
+				}
+			}
+			// the position reported at callback j is that of the frame heard after callback j - 1: it advances while the
+			// sound is Resuming / Playing
+			if j > resume_at_cb && *pos != ctl.per_cb[j].1 && !gap {
+				s.fail(desc.clone(), format!("callback {j}: position {pos} but uninterrupted playback is at {}; the sound was resumed, its position must advance", ctl.per_cb[j].1), None);
+				break;
+			}
+			if j > resume_at_cb + 1 && *pos <= tr.per_cb[j - 1].1 {
+				s.fail(desc.clone(), format!("callback {j}: position stuck at {pos} (was {}) although the sound was resumed", tr.per_cb[j - 1].1), None);
+				break;
+			}
+		}
+	}
+}
+
+// ================================================================================================
 // sounds that have ended before their first callback: reverse playback with nothing to play
 // ================================================================================================
 #[derive(Clone, Debug)]
@@ -1213,6 +1427,8 @@ enum MCmd {
 	Pause(Tw),
 	Stop(Tw),
 	ResumeAt(Start, Tw),
+	/// `resume(tween)`
+	Resume(Tw),
 }
 enum AnyHandle {
 	St(StaticSoundHandle),
@@ -1236,6 +1452,8 @@ impl AnyHandle {
 			(AnyHandle::St(h), MCmd::Pause(t)) => h.pause(mk_tween(ids, t)),
 			(AnyHandle::St(h), MCmd::Stop(t)) => h.stop(mk_tween(ids, t)),
 			(AnyHandle::St(h), MCmd::ResumeAt(s, t)) => h.resume_at(mk_start(ids, s), mk_tween(ids, t)),
+			(AnyHandle::St(h), MCmd::Resume(t)) => h.resume(mk_tween(ids, t)),
+			(AnyHandle::Sm(h), MCmd::Resume(t)) => h.resume(mk_tween(ids, t)),
 			(AnyHandle::Sm(h), MCmd::Pause(t)) => h.pause(mk_tween(ids, t)),
 			(AnyHandle::Sm(h), MCmd::Stop(t)) => h.stop(mk_tween(ids, t)),
 			(AnyHandle::Sm(h), MCmd::ResumeAt(s, t)) => h.resume_at(mk_start(ids, s), mk_tween(ids, t)),
@@ -1264,12 +1482,15 @@ fn track_scenarios(s: &mut Session, r: &mut Rng, ids: &[ClockId], count: u64) {
 		let at = if r.chance(2, 3) { 0 } else { r.range(1, 3) as usize };
 		let k = if r.chance(1, 2) { 0 } else { (r.below(12) + 1) * 2 };
 		let e = gen_easing(r);
-		let which = r.below(4);
+		let which = r.below(6);
 		let cmd = match which {
 			0 | 1 => MCmd::Pause(frames_tw(k, e)),
 			2 => MCmd::Stop(frames_tw(k, e)),
-			_ => MCmd::ResumeAt(Start::Del((r.below(6) + 1) * 1_953_125), frames_tw(k, e)),
+			3 => MCmd::ResumeAt(Start::Del((r.below(6) + 1) * 1_953_125), frames_tw(k, e)),
+			// pause, then resume with no callback between them: the handle still shows what the last callback published
+			_ => MCmd::Resume(frames_tw(k, e)),
 		};
+		let before: Option<MCmd> = if which >= 4 { Some(MCmd::Pause(frames_tw(if r.chance(1, 3) { 0 } else { (r.below(12) + 1) * 2 }, gen_easing(r)))) } else { None };
 		let ncb = at + (k as usize + frames - 1) / frames + 5;
 		// the sound: static looping DC, or a stream that is fed one packet per callback for a while and then starves
 		let packets: Vec<usize> = (0..r.range(2, 4)).map(|_| r.range(1, 6) as usize).collect();
@@ -1299,6 +1520,7 @@ fn track_scenarios(s: &mut Session, r: &mut Rng, ids: &[ClockId], count: u64) {
 			MCmd::Pause(_) => format!("pause with {e:?} over {k} frames"),
 			MCmd::Stop(_) => format!("stop with {e:?} over {k} frames"),
 			MCmd::ResumeAt(st, _) => format!("resume_at({st:?}) with {e:?} over {k} frames"),
+			MCmd::Resume(_) => format!("{:?} and then, with no callback in between, resume with {e:?} over {k} frames", before.as_ref().unwrap()),
 		};
 		let desc = format!(
 			"{} played on {} (internal buffer {ibs}, callbacks of {frames} frames), {what} issued {}",
@@ -1331,11 +1553,18 @@ fn track_scenarios(s: &mut Session, r: &mut Rng, ids: &[ClockId], count: u64) {
 				}
 				let mut cb = Cb { pause: None, resume: None, stop: None, lens: chunking(frames, ibs), clocks: vec![] };
 				if j == at {
+					if let Some(b) = &before {
+						h.apply(ids, b);
+						if let MCmd::Pause(t) = b {
+							cb.pause = Some(t.clone());
+						}
+					}
 					h.apply(ids, &cmd);
 					match &cmd {
 						MCmd::Pause(t) => cb.pause = Some(t.clone()),
 						MCmd::Stop(t) => cb.stop = Some(t.clone()),
 						MCmd::ResumeAt(st, t) => cb.resume = Some((st.clone(), t.clone())),
+						MCmd::Resume(t) => cb.resume = Some((Start::Imm, t.clone())),
 					}
 				}
 				cbs.push(cb);
@@ -1401,14 +1630,21 @@ fn track_scenarios(s: &mut Session, r: &mut Rng, ids: &[ClockId], count: u64) {
 				MCmd::Stop(_) => vec![if done { PlaybackState::Stopped } else { PlaybackState::Stopping }],
 				// the delay, then the fade-in: exact instants are the model's business
 				MCmd::ResumeAt(..) => vec![PlaybackState::WaitingToResume, PlaybackState::Resuming, PlaybackState::Playing],
+				// resume was issued last: Resuming until its tween completes, then Playing
+				MCmd::Resume(_) => vec![if done { PlaybackState::Playing } else { PlaybackState::Resuming }],
 			};
 			if !want.contains(stt) {
 				s.fail(desc.clone(), format!("after callback {} ({} frames after the command) the handle reports {stt:?}, the life cycle prescribes {want:?}", j + 1, n_after(j)), None);
 				violated = true;
 				break;
 			}
-			if matches!(stt, PlaybackState::Paused | PlaybackState::WaitingToResume | PlaybackState::Stopped) && k == 0 && j == at && outs.iter().any(|x| *x != 0.0) && !matches!(cmd, MCmd::ResumeAt(..)) {
+			if matches!(stt, PlaybackState::Paused | PlaybackState::WaitingToResume | PlaybackState::Stopped) && k == 0 && j == at && outs.iter().any(|x| *x != 0.0) && !matches!(cmd, MCmd::ResumeAt(..) | MCmd::Resume(_)) {
 				s.fail(desc.clone(), format!("callback {}: the command had an instant tween and was issued before this callback, yet the callback emitted {outs:?}", j + 1), None);
+				violated = true;
+				break;
+			}
+			if matches!(cmd, MCmd::Resume(_)) && !streaming && outs.iter().any(|x| *x != 1.0) {
+				s.fail(desc.clone(), format!("callback {}: output {outs:?}; pause and resume reached the sound together, so its gain never left unity", j + 1), None);
 				violated = true;
 				break;
 			}
@@ -1480,7 +1716,7 @@ pub fn run(args: &Args) {
 		"From Coq Require Import ZArith List. Import ListNotations. Open Scope Z_scope.\nFrom KV Require Import Base.Corr C06.Run C03.Run.",
 		"run",
 		60,
-		"one case = one real sound of DC frames (output == gain) driven through callbacks with generated pause / resume / resume_at / stop commands (tween durations 0, sub-frame, frame multiples, arbitrary; Linear/Powi easings; start times immediate/delayed/clock present, paused, removed); kinds: history = static sound as a bare Sound (looping or finite, start position, start time, optional fade-in; 3-9 callbacks of 1-2 process calls); stream_history = streaming sound as a bare Sound with a scripted decoder whose thread is paced by permits, so the ring content at every callback is exactly known (mostly starved; natural end; decoder error at a scripted call); stream_fade_starved = fade command on a starved stream with a known answer; stream_error_not_advancing = decoder error while Paused / WaitingToResume / start time pending / Pausing; ended_at_construction = static sound reversed with nothing to play; main_track_static / main_track_stream = sound played through a real AudioManager on the main track with a command issued between play() and the first callback (or later); observables per callback: handle.state(), handle.position(), finished(), every output sample; distinct = distinct scenario text; non-trivial = at least one command or a natural end. Monitor-only scenarios (fade laws, natural end, unloading / slot reuse on tracks of capacity 1, sub-tracks, sounds that end at construction played on tracks) are counted as evaluations",
+		"one case = one real sound of DC frames (output == gain) driven through callbacks with generated pause / resume / resume_at / stop commands (tween durations 0, sub-frame, frame multiples, arbitrary; Linear/Powi easings; start times immediate/delayed/clock present, paused, removed); kinds: history = static sound as a bare Sound (looping or finite, start position, start time, optional fade-in; 3-9 callbacks of 1-2 process calls); stream_history = streaming sound as a bare Sound with a scripted decoder whose thread is paced by permits, so the ring content at every callback is exactly known (mostly starved; natural end; decoder error at a scripted call); stream_fade_starved = fade command on a starved stream with a known answer; stream_error_not_advancing = decoder error while Paused / WaitingToResume / start time pending / Pausing; ended_at_construction = static sound reversed with nothing to play; same_boundary_static / same_boundary_stream = sound playing at unity gain, pause(tp) then resume(tr) issued with no callback between them (the handle still reports Playing when resume is called) or, as a control, one callback apart, known answer: Resuming until tr completes then Playing, output equal to uninterrupted playback, position advancing; main_track_static / main_track_stream = sound played through a real AudioManager on the main track with a command (or pause then resume back to back) issued between play() and the first callback (or later); observables per callback: handle.state(), handle.position(), finished(), every output sample; an immediate resume is always sent as handle.resume(tween), the other start times as resume_at; on every trace the last-command monitor is evaluated: the command read last (read order pause, resume, stop) fixes the branch of the life cycle the handle may report until the next command, forwards only; distinct = distinct scenario text; non-trivial = at least one command or a natural end. Monitor-only scenarios (fade laws, natural end, unloading / slot reuse on tracks of capacity 1, sub-tracks, sounds that end at construction played on tracks) are counted as evaluations",
 	);
 	let ids = clock_ids();
 	for _ in 0..n {
@@ -1505,6 +1741,7 @@ pub fn run(args: &Args) {
 	manager_scenarios(&mut s, &mut rng, n / 8);
 	stream_history_scenarios(&mut s, &mut rng, &ids, n / 2);
 	stream_law_scenarios(&mut s, &mut rng, &ids, n / 8);
+	same_boundary_scenarios(&mut s, &mut rng, &ids, n / 8);
 	ended_scenarios(&mut s, &mut rng, &ids, n / 8);
 	track_scenarios(&mut s, &mut rng, &ids, n / 4);
 	s.finish();
